@@ -115,7 +115,7 @@ func hookC11(wd *World) {
 		wd.rec.end(c)
 		ad.recoverAfterCrash()
 		wd.sharedAd = ad
-		qc.FEnq, qc.FDeq, qc.FAck, qc.NDup = 0, 0, 0, 0
+		qc.FEnq, qc.FDeq, qc.FAck, qc.FAckLost, qc.NDup = 0, 0, 0, 0, 0
 		wd.spawnConsumer(1+simrt.Choose(3), qc)
 		simrt.WaitQuiescent()
 	} else {
